@@ -19,8 +19,28 @@ FACT_ADTS = {
 }
 
 
+def oadd(t, items, eng=None):
+    """ordered-unique append (or sorted set union when the engine is unordered)"""
+    if eng is not None and eng.keep is not None:
+        items = [x for x in items if eng.keep(x[4:] if x.startswith("may:") else x)]
+    if eng is not None and not eng.ordered:
+        return tuple(sorted(set(t) | set(items)))
+    out = list(t)
+    seen = set(t)
+    for x in items:
+        if x not in seen:
+            seen.add(x)
+            out.append(x)
+    return tuple(out)
+
+
 class EffectEngine:
-    def __init__(self, facts, crate_name="penguin_mux", maxdepth=5, extra_call_effects=None):
+    def __init__(self, facts, crate_name="penguin_mux", maxdepth=40, extra_call_effects=None, ordered=False,
+                 keep=None, keep_fact=None, opaque=None):
+        self.opaque = opaque
+        self.ordered = ordered
+        self.keep = keep
+        self.keep_fact = keep_fact
         self.facts = facts
         self.crate = facts.crate(crate_name)
         self.memo = {}
@@ -31,6 +51,7 @@ class EffectEngine:
         self.extra = extra_call_effects
         self.exhausted = False
         self.sites = set()
+        self.trunc = 0
 
     def tracer(self, b):
         t = self.tracers.get(b.dp)
@@ -93,6 +114,12 @@ class EffectEngine:
                 return {"dropq:close"}
         if name in ("recv", "poll_recv") and "UnboundedReceiver::<ws::Message>" in path:
             return {"outq:recv"}
+        if name in ("recv", "poll_recv") and "UnboundedReceiver::<u32>" in path:
+            return {"dropq:recv"}
+        if name in ("timeout", "now_or_never", "timeout_at") :
+            return {"bounded:" + name}
+        if name in ("tick",) and "Interval" in d:
+            return {"tick"}
         if name == "replace" and d.endswith("mem::replace") and "FlowSlot" in path:
             return {"establish"}
         if c.get("trait", "").endswith("ws::WebSocket"):
@@ -136,6 +163,8 @@ class EffectEngine:
                     if x.kind == "call" and x[6] == "dispatch":
                         return "dispatch-result:%s" % v
                 return None
+            if g.adt and g.adt.endswith("__PrivResult"):
+                return "select:%s" % v
             if g.adt and g.adt.endswith("ControlFlow"):
                 for x in walk(g.pred):
                     if x.kind == "field" and x[2] == "sender":
@@ -187,8 +216,10 @@ class EffectEngine:
         if key in self.memo:
             return self.memo[key]
         if key in self.inprog or depth > self.maxdepth:
-            return {(frozenset(), frozenset(["recursion"]))}
+            self.trunc += 1
+            return {(frozenset(), ("recursion",))}
         self.inprog.add(key)
+        trunc0 = self.trunc
         tr = self.tracer(b)
         guards = {}
         for bb in range(len(b.blocks)):
@@ -208,9 +239,9 @@ class EffectEngine:
             res = []
             for f2, e2 in outs:
                 if may:
-                    res.append((auto[0], auto[1] | frozenset("may:" + x for x in e2 if not x.startswith("may:")) | frozenset(x for x in e2 if x.startswith("may:"))))
+                    res.append((auto[0], oadd(auto[1], [x if x.startswith("may:") else "may:" + x for x in e2], eng)))
                 else:
-                    res.append((auto[0] | f2, auto[1] | e2))
+                    res.append((auto[0] | f2, oadd(auto[1], e2, eng)))
             return res
 
         def on_stmt(bb, i, s, auto):
@@ -232,7 +263,7 @@ class EffectEngine:
                 if a["a"] == "Adt" and a["adt"].endswith("result::Result") and a["variant"] == "Err":
                     n = strip(tr.operand(s["rv"]["ops"][0]))
                     nm = n[2].split("::")[-1] if n.kind == "agg" else "?"
-                    return (auto[0], auto[1] | frozenset(["ret:Err(%s)" % nm]))
+                    return (auto[0], oadd(auto[1], ["ret:Err(%s)" % nm], eng))
             return auto
 
         cur_store = [None]
@@ -249,9 +280,13 @@ class EffectEngine:
                 for e in effs:
                     eng.sites.add((b.dp, bb, e))
             if effs:
-                auto = (auto[0], auto[1] | frozenset(e for e in effs if e != "~"))
+                auto = (auto[0], oadd(auto[1], sorted(e for e in effs if e != "~"), eng))
             # closure call
             tb = eng.target_body(c)
+            if tb is not None and eng.opaque is not None and eng.opaque(tb):
+                auto = (auto[0], oadd(auto[1], ["call:" + tb.name], None))
+                tb = None
+                effs = effs or {"~"}
             if tb is not None and tb.j.get("coroutine"):
                 tb = None  # coroutine bodies are accounted for where the future is created
                 effs = effs or {"~"}
@@ -281,12 +316,12 @@ class EffectEngine:
             if g is None:
                 return auto
             f = eng.edge_fact(b, tr, g, succ)
-            if f is None:
+            if f is None or (eng.keep_fact is not None and not eng.keep_fact(f)):
                 return auto
             return (auto[0] | frozenset([f]), auto[1])
 
         ex = Explorer(self.facts, b, on_stmt=on_stmt, on_term=on_term, on_edge=on_edge, budget=120000, init_store=ctx)
-        finals = ex.run(0, (frozenset(), frozenset()))
+        finals = ex.run(0, (frozenset(), ()))
         self.states += len(ex.seen)
         if ex.exhausted:
             self.exhausted = True
@@ -297,9 +332,10 @@ class EffectEngine:
             elif kind == "Unreachable" or (kind not in ("Return",) and not b.blocks[st[0]]["cleanup"]):
                 # diverging path (panic): record as an outcome only if a panic effect was seen
                 if "panic" in auto[1]:
-                    outs.add((auto[0], auto[1] | frozenset(["diverges"])))
+                    outs.add((auto[0], oadd(auto[1], ["diverges"])))
         self.inprog.discard(key)
-        self.memo[key] = outs
+        if self.trunc == trunc0:
+            self.memo[key] = outs
         return outs
 
 
